@@ -479,5 +479,5 @@ MANIFEST = {
     "text": "exploration: strict one-step fixpoint (text and exported data) for native-syntax inputs and two-step convergence with preserved meaning for foreign spellings, over thousands (quick) / 300 000 (thorough) generated objects of all eleven classes plus acls()/aces()/addrgroups() on rendered text",
     "note": "trusted: lib/refsem.py for the meaning of foreign spellings; config functions judged only for indent >= 1 and non-empty bodies; remark text is generated with single blanks (the parser normalises whitespace)",
 }
-MANIFEST["engine"] += " + atheris (coverage-guided twins of the Hypothesis sub-checks, fuzz/fuzz_hyp.py: 2 jobs x 8 s quick, 8 jobs x 200 s thorough)"
+MANIFEST["engine"] = MANIFEST.get("engine", "hypothesis") + " + atheris (coverage-guided twins of the Hypothesis sub-checks, fuzz/fuzz_hyp.py: 2 jobs x 8 s quick, 8 jobs x 200 s thorough)"
 MANIFEST["technique"] += "; plus coverage-guided fuzzing of the same strategies (atheris/libFuzzer mutates the byte stream Hypothesis decodes into cases, the same oracle runs inside the target, findings are re-judged outside it)"
